@@ -1614,6 +1614,171 @@ func c8WriteBadJSON(x any, class string, r *rand.Rand) (txt, j string, pf map[st
 	return txt, j, w.pf, w.badHit, true
 }
 
+// ---------------------------------------------------------------------------------------------
+// payloads built through the PUBLIC pdata API by random programs
+//
+// c8APIProgram drives a pdata wrapper (plog.Logs, pmetric.Metrics, …) by reflection over its exported METHODS only — exactly the
+// surface a user of the API has: Set<Name>(scalar), Put<Kind>(key, scalar), SetEmpty<Alt>() / PutEmpty<Kind>(key) (one-of
+// alternatives and containers), AppendEmpty() on slices, FromRaw on primitive slices / trace state, and zero-argument accessors
+// that return another pdata wrapper. Accessors of one-of alternatives (a SetEmpty<Name> exists) are only reached through
+// SetEmpty<Name>. Every call runs under recover (a panic of the API itself is not C08's concern and is counted, not reported).
+type c8API struct {
+	r      *rand.Rand
+	g      *c8Gen
+	budget int
+	calls  int
+	panics int
+}
+
+var c8SkipAPI = map[string]bool{"CopyTo": true, "MoveTo": true, "MoveAndAppendTo": true, "RemoveIf": true, "Sort": true, "Range": true,
+	"AsRaw": true, "AsString": true, "Equal": true, "MarkReadOnly": true, "IsReadOnly": true, "EnsureCapacity": true, "Clear": true,
+	"Remove": true, "All": true, "At": true, "Len": true, "Get": true, "Type": true, "String": true, "IsEmpty": true, "SetAt": true}
+
+func c8IsPdataWrapper(t reflect.Type) bool {
+	return t.Kind() == reflect.Struct && strings.HasPrefix(t.PkgPath(), "go.opentelemetry.io/collector/pdata/") && t.NumMethod() > 0
+}
+
+func (a *c8API) arg(t reflect.Type) (reflect.Value, bool) {
+	v := reflect.New(t).Elem()
+	switch t.Kind() {
+	case reflect.String:
+		v.SetString(a.g.str())
+	case reflect.Int64, reflect.Int32, reflect.Int:
+		x := int64(a.g.u64())
+		if t.Kind() == reflect.Int32 {
+			x = int64(int32(x))
+		}
+		v.SetInt(x)
+	case reflect.Uint64, reflect.Uint32:
+		x := a.g.u64()
+		if t.Kind() == reflect.Uint32 {
+			x = uint64(uint32(x))
+		}
+		v.SetUint(x)
+	case reflect.Float64:
+		v.SetFloat(a.g.f64())
+	case reflect.Bool:
+		v.SetBool(a.r.IntN(2) == 0)
+	case reflect.Array:
+		if t.Elem().Kind() != reflect.Uint8 {
+			return v, false
+		}
+		if a.r.IntN(4) != 0 {
+			for i := 0; i < t.Len(); i++ {
+				v.Index(i).SetUint(uint64(a.r.UintN(256)))
+			}
+		}
+	case reflect.Slice:
+		n := a.r.IntN(4)
+		s := reflect.MakeSlice(t, n, n)
+		for i := 0; i < n; i++ {
+			e, ok := a.arg(t.Elem())
+			if !ok {
+				return v, false
+			}
+			s.Index(i).Set(e)
+		}
+		v.Set(s)
+	default:
+		return v, false
+	}
+	return v, true
+}
+
+func (a *c8API) call(m reflect.Value, args ...reflect.Value) (out []reflect.Value, ok bool) {
+	defer func() {
+		if p := recover(); p != nil {
+			a.panics++
+			ok = false
+		}
+	}()
+	a.calls++
+	return m.Call(args), true
+}
+
+// drive: a random API program on wrapper w.
+func (a *c8API) drive(w reflect.Value, depth int) {
+	if a.budget <= 0 || depth > 9 {
+		return
+	}
+	t := w.Type()
+	hasSetEmpty := map[string]bool{}
+	for i := 0; i < t.NumMethod(); i++ {
+		if n := t.Method(i).Name; strings.HasPrefix(n, "SetEmpty") {
+			hasSetEmpty[strings.TrimPrefix(n, "SetEmpty")] = true
+		}
+	}
+	// a slice wrapper: AppendEmpty a few elements and drive each
+	if m := w.MethodByName("AppendEmpty"); m.IsValid() && m.Type().NumIn() == 0 {
+		k := a.r.IntN(3)
+		if depth < 6 { // resource / scope / record levels: never leave the payload empty
+			k = 1 + a.r.IntN(2)
+		}
+		for ; k > 0 && a.budget > 0; k-- {
+			a.budget--
+			if out, ok := a.call(m); ok && len(out) == 1 && c8IsPdataWrapper(out[0].Type()) {
+				a.drive(out[0], depth+1)
+			}
+		}
+		return
+	}
+	oneofDone := false
+	for _, i := range a.r.Perm(t.NumMethod()) {
+		if a.budget <= 0 {
+			return
+		}
+		name := t.Method(i).Name
+		m := w.Method(i)
+		mt := m.Type()
+		if c8SkipAPI[name] || (depth > 1 && a.r.IntN(10) < 3) {
+			continue
+		}
+		switch {
+		case strings.HasPrefix(name, "SetEmpty") && mt.NumIn() == 0:
+			if oneofDone && a.r.IntN(3) != 0 { // later SetEmpty* replaces the alternative: allowed, but rarer
+				continue
+			}
+			oneofDone = true
+			a.budget--
+			if out, ok := a.call(m); ok && len(out) == 1 && c8IsPdataWrapper(out[0].Type()) {
+				a.drive(out[0], depth+1)
+			}
+		case strings.HasPrefix(name, "PutEmpty") && mt.NumIn() == 1 && mt.In(0).Kind() == reflect.String:
+			a.budget--
+			if out, ok := a.call(m, reflect.ValueOf(a.g.str())); ok && len(out) == 1 && c8IsPdataWrapper(out[0].Type()) {
+				a.drive(out[0], depth+1)
+			}
+		case strings.HasPrefix(name, "Put") && mt.NumIn() == 2 && mt.In(0).Kind() == reflect.String:
+			if v, ok := a.arg(mt.In(1)); ok {
+				a.budget--
+				a.call(m, reflect.ValueOf(a.g.str()), v)
+			}
+		case (strings.HasPrefix(name, "Set") || name == "FromRaw") && mt.NumIn() == 1 && !mt.IsVariadic():
+			if v, ok := a.arg(mt.In(0)); ok {
+				a.budget--
+				a.call(m, v)
+			}
+		case name == "Append" && mt.IsVariadic() && mt.NumIn() == 1:
+			if v, ok := a.arg(mt.In(0)); ok {
+				a.budget--
+				func() {
+					defer func() {
+						if recover() != nil {
+							a.panics++
+						}
+					}()
+					m.CallSlice([]reflect.Value{v})
+				}()
+			}
+		case mt.NumIn() == 0 && mt.NumOut() == 1 && c8IsPdataWrapper(mt.Out(0)) && !hasSetEmpty[name]:
+			a.budget--
+			if out, ok := a.call(m); ok {
+				a.drive(out[0], depth+1)
+			}
+		}
+	}
+}
+
 // c8SetIDs walks a payload and gives EVERY fixed-size id (TraceID / SpanID / ProfileID: arrays of bytes) the boundary shape
 // `shape`: "hot<p>" = only byte p%len non-zero, "hi0" = high half zero, "lo0" = low half zero. Returns how many ids it set.
 func c8SetIDs(v reflect.Value, shape string) int {
@@ -1773,6 +1938,129 @@ func (n *c8JNode) print(sb *strings.Builder, sorted bool) {
 		sb.WriteByte(']')
 	default:
 		sb.WriteString(n.tok)
+	}
+}
+
+// c8MutateJSONTree: 1–4 random TREE mutations of a well-formed document (result is well-formed): a value replaced by a value of
+// another JSON type or an exotic spelling of a number, members deleted / renamed to another key of the document / swapped,
+// values wrapped into arrays or objects, arrays emptied or doubled, null everywhere.
+func c8MutateJSONTree(r *rand.Rand, base []byte) []byte {
+	dec := json.NewDecoder(bytes.NewReader(base))
+	dec.UseNumber()
+	var root any
+	if err := dec.Decode(&root); err != nil {
+		return nil
+	}
+	var keys []string
+	var collect func(v any)
+	collect = func(v any) {
+		switch x := v.(type) {
+		case map[string]any:
+			for k, c := range x {
+				keys = append(keys, k)
+				collect(c)
+			}
+		case []any:
+			for _, c := range x {
+				collect(c)
+			}
+		}
+	}
+	collect(root)
+	sort.Strings(keys)
+	scalars := []any{nil, true, false, "", "x", "AQID", "0011223344556677", "00112233445566778899aabbccddeeff", "NaN", "Infinity", "12", "-7",
+		"SPAN_KIND_SERVER", "AGGREGATION_TEMPORALITY_DELTA", json.Number("0"), json.Number("-0"), json.Number("1"), json.Number("-1"),
+		json.Number("1e2"), json.Number("1E+2"), json.Number("0.0"), json.Number("2.5"), json.Number("4294967296"), json.Number("9007199254740993"),
+		json.Number("9223372036854775807"), json.Number("9223372036854775808"), json.Number("18446744073709551615"),
+		json.Number("-9223372036854775808"), json.Number("1e400"), map[string]any{}, []any{}, []any{nil}, map[string]any{"values": []any{}}}
+	var mutate func(v any, depth int) any
+	mutate = func(v any, depth int) any {
+		switch x := v.(type) {
+		case map[string]any:
+			if len(x) == 0 || r.IntN(8) == 0 {
+				return scalars[r.IntN(len(scalars))]
+			}
+			ks := make([]string, 0, len(x))
+			for k := range x {
+				ks = append(ks, k)
+			}
+			sort.Strings(ks)
+			k := ks[r.IntN(len(ks))]
+			switch r.IntN(7) {
+			case 0:
+				delete(x, k)
+			case 1:
+				if len(keys) > 0 {
+					nk := keys[r.IntN(len(keys))]
+					x[nk] = x[k]
+				}
+			case 2:
+				k2 := ks[r.IntN(len(ks))]
+				x[k], x[k2] = x[k2], x[k]
+			case 3:
+				x[k] = []any{x[k]}
+			case 4:
+				x[k] = scalars[r.IntN(len(scalars))]
+			default:
+				x[k] = mutate(x[k], depth+1)
+			}
+			return x
+		case []any:
+			if len(x) == 0 || r.IntN(6) == 0 {
+				return scalars[r.IntN(len(scalars))]
+			}
+			i := r.IntN(len(x))
+			switch r.IntN(5) {
+			case 0:
+				return append(x, x...)
+			case 1:
+				return x[:i]
+			case 2:
+				x[i] = scalars[r.IntN(len(scalars))]
+			default:
+				x[i] = mutate(x[i], depth+1)
+			}
+			return x
+		default:
+			return scalars[r.IntN(len(scalars))]
+		}
+	}
+	for k := 1 + r.IntN(4); k > 0; k-- {
+		root = mutate(root, 0)
+	}
+	out, err := json.Marshal(root)
+	if err != nil {
+		return nil
+	}
+	return out
+}
+
+// c8DocPF: the float table of a free-form document — every number literal and every string of the document that
+// strconv.ParseFloat accepts (type-blind superset of what the double readers may be asked to parse).
+func c8DocPF(doc []byte) map[string]uint64 {
+	pf := map[string]uint64{}
+	dec := json.NewDecoder(bytes.NewReader(doc))
+	dec.UseNumber()
+	for {
+		t, err := dec.Token()
+		if err != nil {
+			return pf
+		}
+		var txt string
+		switch x := t.(type) {
+		case json.Number:
+			txt = string(x)
+		case string:
+			txt = x
+		default:
+			continue
+		}
+		if len(txt) > 64 {
+			continue
+		}
+		if f, err := strconv.ParseFloat(txt, 64); err == nil {
+			pf[txt] = math.Float64bits(f)
+		}
 	}
 }
 
